@@ -3,6 +3,7 @@
 package composite
 
 import (
+	"context"
 	"encoding/base64"
 	"encoding/json"
 	"fmt"
@@ -23,6 +24,7 @@ import (
 	"pgregory.net/rapid"
 
 	xpv1 "github.com/crossplane/crossplane-runtime/apis/common/v1"
+	"github.com/crossplane/crossplane-runtime/pkg/fieldpath"
 	"github.com/crossplane/crossplane-runtime/pkg/resource/unstructured/composed"
 	"github.com/crossplane/crossplane-runtime/pkg/resource/unstructured/composite"
 
@@ -1112,4 +1114,97 @@ func firstLines(s string, n int) string {
 		l = l[:n]
 	}
 	return strings.Join(l, "\n")
+}
+
+// ---------------------------------------------------------------------------
+// merge options: the apply options derived from patch policies read the
+// existing (current) composed resource but never modify it
+
+func TestVerifC10MergeOptionsPurity(t *testing.T) {
+	rec := verifkit.New(t, "C10", "apply options built by mergeOptions() from 1-3 policy patches with overlapping toFieldPaths, run in sequence over generated unstructured current/desired objects; oracle: current is never modified, result is deterministic, appendSlice/keepMapValues agree with their documented meaning on lists/maps of scalars; distinct=(current,desired,patches)")
+	rapid.Check(t, func(t *rapid.T) {
+		cur := c10Object("example.org/v1", "Composed").Draw(t, "current")
+		des := c10Object("example.org/v1", "Composed").Draw(t, "desired")
+		// make overlap likely: both sides get a tags map and a list
+		if rapid.Bool().Draw(t, "seedtags") {
+			cs, _ := cur["spec"].(map[string]any)
+			if cs == nil {
+				cs = map[string]any{}
+				cur["spec"] = cs
+			}
+			ds, _ := des["spec"].(map[string]any)
+			if ds == nil {
+				ds = map[string]any{}
+				des["spec"] = ds
+			}
+			cs["tags"] = map[string]any{"env": "dev", "team": "a"}
+			ds["tags"] = map[string]any{"env": "prod", "cost": "x"}
+			cs["list"] = []any{"a", "b"}
+			ds["list"] = []any{"c"}
+		}
+		var curPaths []string
+		c10Paths(cur, "", &curPaths)
+		curPaths = append(curPaths, "spec.tags", "spec.tags.env", "spec.list", "spec")
+		n := rapid.IntRange(1, 3).Draw(t, "npatches")
+		var patches []v1.Patch
+		for i := 0; i < n; i++ {
+			p := v1.Patch{Type: v1.PatchTypeFromCompositeFieldPath, FromFieldPath: ptr.To("spec.x")}
+			path := rapid.SampledFrom(curPaths).Draw(t, "to")
+			if strings.Contains(path, "*") {
+				path = "spec.tags"
+			}
+			p.ToFieldPath = &path
+			p.Policy = c10Policy().Draw(t, "policy")
+			patches = append(patches, p)
+		}
+		rec.Eval()
+		run := func() (map[string]any, map[string]any, []bool) {
+			c := &unstructured.Unstructured{Object: verifkit.DeepCopyJSON(cur).(map[string]any)}
+			d := &unstructured.Unstructured{Object: verifkit.DeepCopyJSON(des).(map[string]any)}
+			var failed []bool
+			for i, o := range mergeOptions(patches) {
+				var err error
+				c10NoPanic(t, fmt.Sprintf("merge apply option %d", i), func() { err = o(context.Background(), c, d) })
+				failed = append(failed, err != nil)
+			}
+			return c.Object, d.Object, failed
+		}
+		c1, d1, f1 := run()
+		if !c10Equal(c1, cur) {
+			t.Fatalf("merge apply options modified the CURRENT object they only read:\nbefore=%s\nafter =%s\npatches=%s", verifkit.JSON(cur), verifkit.JSON(c1), verifkit.JSON(patches))
+		}
+		_, d2, f2 := run()
+		if !c10Equal(d1, d2) || !c10Equal(f1, f2) {
+			t.Fatalf("merge apply options are not deterministic")
+		}
+		if !c10Equal(d1, des) {
+			rec.Label("merge:changed-desired")
+			rec.NonTrivial(verifkit.JSON([]any{cur, des, patches}), func() any { return map[string]any{"current": cur, "desired": des, "patches": patches} })
+		}
+	})
+	// documented meanings on the canonical example
+	for _, tc := range []struct {
+		name string
+		mo   *xpv1.MergeOptions
+		path string
+		want any
+	}{
+		{"appendSlice", &xpv1.MergeOptions{AppendSlice: ptr.To(true)}, "spec.list", []any{"a", "b", "c"}},
+		{"keepMapValues", &xpv1.MergeOptions{KeepMapValues: ptr.To(true)}, "spec.tags", map[string]any{"env": "dev", "team": "a", "cost": "x"}},
+		{"default-replaces-values-keeps-other-keys", &xpv1.MergeOptions{}, "spec.tags", map[string]any{"env": "prod", "team": "a", "cost": "x"}},
+	} {
+		c := &unstructured.Unstructured{Object: map[string]any{"apiVersion": "example.org/v1", "kind": "C", "spec": map[string]any{"tags": map[string]any{"env": "dev", "team": "a"}, "list": []any{"a", "b"}}}}
+		d := &unstructured.Unstructured{Object: map[string]any{"apiVersion": "example.org/v1", "kind": "C", "spec": map[string]any{"tags": map[string]any{"env": "prod", "cost": "x"}, "list": []any{"c"}}}}
+		before := verifkit.DeepCopyJSON(c.Object)
+		if err := withMergeOptions(tc.path, tc.mo)(context.Background(), c, d); err != nil {
+			t.Fatalf("%s: %v", tc.name, err)
+		}
+		got, _ := fieldpath.Pave(d.Object).GetValue(tc.path)
+		if !reflect.DeepEqual(got, tc.want) {
+			t.Fatalf("%s: desired %s = %v, want %v", tc.name, tc.path, got, tc.want)
+		}
+		if !reflect.DeepEqual(before, c.Object) {
+			t.Fatalf("%s: current was modified", tc.name)
+		}
+	}
 }
